@@ -120,6 +120,18 @@ func c11(c *Ctx) {
 				c.Count("no lexer tables")
 				continue
 			}
+			if t := gp.G.Lexer.Tables; t.LastMapEntry().Start > 2048 {
+				// inputs at the ends of the compressed rune ranges (tmRuneRanges) +-1
+				cm := t.CompressedMap(256)
+				for k := 0; k < 8 && len(cm) > 0; k++ {
+					e := cm[r.Intn(len(cm))]
+					for _, x := range []rune{e.Lo - 1, e.Lo, e.Hi - 1, e.Hi, e.Hi + 1, e.Lo + rune(len(e.Vals)), e.Lo + rune(len(e.Vals)) - 1} {
+						if x >= 0x80 && x <= 0x10ffff && (x < 0xd800 || x > 0xdfff) {
+							g.Frags = append(g.Frags, string(x))
+						}
+					}
+				}
+			}
 			it := &item{g: g, gp: gp, mirrorOnly: mirror}
 			if gp.G.Lexer.RuleToken == nil {
 				tg := *g
